@@ -319,6 +319,9 @@ func (ex *Exec) specLoadVar(sc *specCtx, v *types.Var) (Val, bool) {
 	}
 	t := sc.st.env[key]
 	if t == nil {
+		if pv, ok := ex.paramVals[v.Name()]; ok && len(ex.inlineStack) <= 1 {
+			return pv, true
+		}
 		ex.specErr(sc, "variable %s has no value in this state", v.Name())
 		return Val{ex.fresh("unk", sortOf(v.Type())), v.Type()}, false
 	}
